@@ -558,3 +558,10 @@ def r07_13(ctx):
     from .c14 import r14_2
 
     r14_2(ctx)
+
+
+@rule("R07.14", "C07", "the size the compiler reports for an operand (sizeof) is its own width in bytes - a predicate register is 1 byte, sizeof does not promote its operand", min_instances=6)
+def r07_14(ctx):
+    from .c09 import r09_4
+
+    r09_4(ctx)
